@@ -294,6 +294,23 @@ def _check_float(cfg, env):
                     c = float(r["clp"].sel(clp_label=L, **{"global": gv}))
                     if not (abs(c - float(full[L])) <= tol * max(1, abs(c))):
                         return True, f"{head} at global {gv}: clp[{L}] = {c}, documented {float(full[L])}"
+    for ds in cfg["datasets"]:
+        if not ds.get("gmc"):
+            continue
+        lab = ds["label"]
+        ks = [k for k, pb in enumerate(problems) if pb["kind"] == "full" and pb["ds"] == [lab]]
+        if not ks:
+            continue
+        clp_by = sol[ks[0]][0]
+        r = res[lab]
+        for (gl, L), c in clp_by.items():
+            try:
+                got = float(r["clp"].sel(global_clp_label=gl, clp_label=L))
+            except Exception as ex:  # noqa: BLE001
+                return True, f"config {cfg['name']} dataset {lab!r}: full-model clp[{gl}, {L}] not addressable: {type(ex).__name__}: {ex}"
+            if not abs(got - c) <= 1e-6 * max(1.0, abs(c)):
+                return True, (f"config {cfg['name']} dataset {lab!r}: full-model clp reported under (global label {gl!r}, label {L!r}) is "
+                              f"{got}, the coefficient of that column pair in the documented problem is {c}")
     return False, "float results satisfy the identities"
 
 
